@@ -754,8 +754,8 @@ func main() {
 			"black": ow.Root.Black, "nil_mask": ow.Root.Nil, "paths": ow.Root.Strs, "style": ow.Own.Style,
 			"own_path": ow.Path, "own_black": ow.Own.Black, "own_nil": ow.Own.Nil, "own_paths": ow.Own.Strs,
 			"program": p, "value": pd.vec.V, "observed": json.RawMessage(res)}
-		term := fmt.Sprintf("(CMOwn %s %s %s %s %s %s %s %s %s %s %s)", coqfmt.BytesF(s.QName()), pd.os.coq(), coqfmt.Bool(ow.Root.Black),
-			ow.Root.coqPaths(), coqfmt.List(ids), coqfmt.Bool(ow.Own.Black), ow.Own.coqPaths(), pd.vec.V.Coq(),
+		term := fmt.Sprintf("(CMOwn %s %s %s %s %s %s %s %s %s %s %s %s)", coqfmt.BytesF(s.QName()), pd.os.coq(), coqfmt.Bool(ow.Root.Black),
+			ow.Root.coqPaths(), coqfmt.List(ids), coqfmt.Bool(ow.Own.Black), ow.Own.coqPaths(), pathsCoq(ow.Own.Paths), pd.vec.V.Coq(),
 			coqfmt.Bool(maskerr), obsErr(o.Err), coqfmt.BytesF(string(bs)))
 		w.Add(term, desc)
 		st.CaseKinds["mown"]++
